@@ -1,4 +1,5 @@
 import XalanModel.Generated.C17_NumberTables
+import XalanModel.Generated.C17_NavShape
 /-!
 # C17 — formatting half of `xsl:number` (ElemNumber.cpp, XalanNumberFormat.cpp)
 
@@ -131,6 +132,12 @@ structure Grouping where
   used : Bool := false
   sep : Str := defaultGroupingSeparator
   size : Nat := defaultGroupingSize
+  /-- length of the evaluated `grouping-separator` attribute (0 when absent): `getNumberFormatter` raises
+  "the grouping-separator value must be one character in length" when it exceeds 1, whether or not grouping is used -/
+  rawSepLen : Nat := 0
+  /-- the evaluated `letter-value` attribute: 0 absent/other, 1 = "alphabetic", 2 = "traditional" (only consulted for
+  the Greek numbering type U+03B1) -/
+  letterValue : Nat := 0
 deriving Repr
 
 /-- the `for` loop of `applyGrouping`: characters are taken from the end of `value` and written at `p--`
@@ -175,7 +182,11 @@ def getFormattedNumber (g : Grouping) (numberType width n : Nat) : Option Str :=
   else if numberType = 73 then toRoman n
   else if numberType = 105 then (toRoman n).map toLowerASCII
   else if numberType ∈ unsupportedTypes then none
-  else if numberType = 0x03B1 then none          -- Greek: needs letter-value; not modelled (generator avoids it)
+  else if numberType = 0x03B1 then
+    -- Greek: letter-value="alphabetic" counts with `s_elalphaCountTable`; "traditional" (`traditionalAlphaCount` over the
+    -- resource bundle) is not modelled; any other value is an XSLT error
+    if g.letterValue = 1 then int2alphaCount elalphaTable n else none
+  else if g.rawSepLen > 1 then none              -- error raised by getNumberFormatter (decimal branch only)
   else some (formatDecimal g width n)
 
 /-! ## `formatNumberList` -/
@@ -210,8 +221,10 @@ def fmtLoop (alnum : Nat → Bool) (g : Grouping) (toks : List Str) (trailerIdx 
       if rest.isEmpty then some s
       else (fmtLoop alnum g toks trailerIdx rest st').map fun t => s ++ st'.sep.getD [46] ++ t
 
-/-- `ElemNumber::formatNumberList` (`fmt` = the evaluated `format` AVT, empty when absent) -/
-def formatNumberList (alnum : Nat → Bool) (g : Grouping) (fmt : Str) (list : List Nat) : Option Str :=
+/-- `ElemNumber::formatNumberList` (`fmt` = the evaluated `format` AVT, empty when absent).
+`singleBoth` = the final `else if (theVectorSize == 1 && leaderStrIt != endIt) theResult += *leaderStrIt;` is present:
+a format string that is one non-alphanumeric token is then prefix *and* suffix. -/
+def formatNumberListP (singleBoth : Bool) (alnum : Nat → Bool) (g : Grouping) (fmt : Str) (list : List Nat) : Option Str :=
   let fmt := if fmt.isEmpty then [49] else fmt
   let toks := tokenize alnum fmt
   let size := toks.length
@@ -219,8 +232,13 @@ def formatNumberList (alnum : Nat → Bool) (g : Grouping) (fmt : Str) (list : L
   let it0 := if hasLeader then 1 else 0
   let trailerIdx := if size > 1 ∧ ¬ firstIsAlnum alnum (toks.getD (size - 1) []) then size - 1 else size
   let leader : Str := if hasLeader then toks.getD 0 [] else []
-  let trailer : Str := if trailerIdx ≠ size then toks.getD trailerIdx [] else []
+  let trailer : Str := if trailerIdx ≠ size then toks.getD trailerIdx []
+    else if singleBoth = true ∧ size = 1 ∧ hasLeader then toks.getD 0 [] else []
   (fmtLoop alnum g toks trailerIdx list { it := it0 }).map fun body => leader ++ body ++ trailer
+
+/-- `formatNumberList` of the current source (`singlePunctuationTokenIsAlsoSuffix` is read from it) -/
+def formatNumberList (alnum : Nat → Bool) (g : Grouping) (fmt : Str) (list : List Nat) : Option Str :=
+  formatNumberListP singlePunctuationTokenIsAlsoSuffix alnum g fmt list
 
 /-! ## `value=` path of `getCountString` for integral values -/
 
@@ -230,6 +248,22 @@ def formatValue (alnum : Nat → Bool) (g : Grouping) (fmt : Str) (v : Int) : Op
   if v < 1 then
     some ((if v < 0 then [45] else []) ++ decimalDigits v.natAbs)
   else formatNumberList alnum g fmt [v.toNat]
+
+/-- outcome of the `value=` path for a rational value -/
+inductive ValueOut
+  | viaNumberToString              -- NaN, ±∞, < 0.5 (XSLT 1.0 erratum E24), or beyond `CountType` when the guard is present
+  | castUndefined                  -- `CountType(round(v))` for a value ≥ 2^64: undefined behaviour (no guard in the code)
+  | formatted (s : Option Str)     -- rounded (half up, `DoubleSupport::round`) and formatted
+deriving Repr
+
+/-- `value=` path of `getCountString` for the value `num / den` (`den > 0`): `lessThan(v, 0.5)` → unformatted;
+else `CountType(round(v))`, which is only defined below 2^64 -/
+def formatValueQ (rangeGuard : Bool) (alnum : Nat → Bool) (g : Grouping) (fmt : Str) (num : Int) (den : Nat) : ValueOut :=
+  if 2 * num < (den : Int) then .viaNumberToString
+  else
+    let n := ((2 * num + den) / (2 * (den : Int))).toNat
+    if n ≥ 2 ^ 64 then (if rangeGuard then .viaNumberToString else .castUndefined)
+    else .formatted (formatNumberList alnum g fmt [n])
 
 /-! ## Decoders (specification side) -/
 
